@@ -442,7 +442,31 @@ def battery(py):
                 f.append(dict(function="inertial_sensor.apply_imu_parameters(%s)" % st, form="columns in another order", what=d))
         except Exception as exc:
             f.append(dict(function="inertial_sensor.Parameters.apply(%s)" % st, form="battery", what="raised %r" % (exc,)))
-    res["inertial_sensor"][0] += 10
+    # EstimationModel.correct_increments: a long batch equals the same rows corrected in pieces and one at a time (a size threshold
+    # that switches the algorithm must not change the values), with a NON-symmetric transform estimate and non-zero bias
+    try:
+        m = IS.EstimationModel(bias_sd=[1.0, 1.0, 1.0], scale_misal_sd=np.ones((3, 3)))
+        m.reset_estimates()
+        m.update_estimates(np.array([1e-3, -2e-3, 3e-3, 0.010, 0.002, -0.003, 0.004, -0.020, 0.005, -0.006, 0.007, 0.030])[:m.n_states])
+        tt = np.cumsum(np.full(N_LONG, 0.01))
+        inc = pd.DataFrame(_rows(4, N_LONG, ["v", "v", "v"]) * 1e-2, index=tt, columns=["theta_x", "theta_y", "theta_z"])
+        dts = pd.Series(np.full(N_LONG, 0.01), index=tt)
+        whole = m.correct_increments(dts, inc)
+        for size in (1, 7, 256, 257, 500):
+            pieces = pd.concat([m.correct_increments(dts.iloc[k:k + size], inc.iloc[k:k + size]) for k in range(0, N_LONG, size)] if size > 1
+                               else [m.correct_increments(dts.iloc[k:k + 1], inc.iloc[k:k + 1]) for k in range(0, N_LONG, 97)])
+            ref_rows = whole.loc[pieces.index]
+            if not np.allclose(ref_rows.values, pieces.values, rtol=1e-12, atol=1e-16):
+                f.append(dict(function="inertial_sensor.EstimationModel.correct_increments", form="batch of %d rows against the same rows in pieces of %d" % (N_LONG, size),
+                              what="largest difference %.3g" % float(np.max(np.abs(ref_rows.values - pieces.values)))))
+                break
+        one = m.correct_increments(float(dts.iloc[300]), inc.iloc[300])
+        if not np.allclose(np.asarray(one, dtype=float), whole.iloc[300].values, rtol=1e-12, atol=1e-16):
+            f.append(dict(function="inertial_sensor.EstimationModel.correct_increments", form="row 300 of a batch of %d against the single-row (Series) call" % N_LONG,
+                          what="largest difference %.3g" % float(np.max(np.abs(np.asarray(one, dtype=float) - whole.iloc[300].values)))))
+    except Exception as exc:
+        f.append(dict(function="inertial_sensor.EstimationModel.correct_increments", form="long batch", what="raised %r" % (exc,)))
+    res["inertial_sensor"][0] += 10 + 6
     # ---- sim -------------------------------------------------------------------------------------------
     f = section("sim")
     err = pd.Series(np.arange(1, 10) * 0.1, index=["north", "east", "down", "VN", "VE", "VD", "roll", "pitch", "heading"])
